@@ -396,3 +396,72 @@ Example ex_rtree_sjoin_scan :
   | _ => []
   end = [(Some 0, Some 0); (Some 1, None); (Some 2, Some 1); (Some 3, None); (Some 4, None)]%nat.
 Proof. vm_compute. reflexivity. Qed.
+
+(* ---- coordinates that are not small integers (round 4) ----
+   Model/Sjoin.v takes integer coordinates.  Model/SjoinFloat.v is the same loop (candidates
+   from the bounds row, exact filter with the array kernels) over binary64; harness/c05_float.py
+   compares the real sjoin with it, bit for bit, on decimal / tiny / huge / near-collinear
+   float64 frames.  Two facts about that model: its pair table is exact for EVERY float64
+   frame (each present pair with the point in the bounds row and the float kernels answering
+   True, exactly once), and on images of integers |v| <= 2^25 its intersection test IS the
+   integer test the theorems above are about (every shape kind). *)
+From SP Require Model.FloatKernels Model.SjoinFloat Proofs.FloatExact Proofs.SjoinFloatProofs
+                Proofs.SjoinFloatExact.
+
+Theorem C05_float_pairs_exact : forall left right l r,
+  In (l, r) (SjoinFloat.fsjoin_pairs left right) <->
+  exists p s, nth_error left l = Some (Some p) /\ nth_error right r = Some (Some s) /\
+              SjoinFloat.fcandidate p s = true /\ SjoinFloat.fintersects p s = true.
+Proof. exact SjoinFloatProofs.fsjoin_pairs_spec. Qed.
+Print Assumptions C05_float_pairs_exact.
+
+Theorem C05_float_pairs_NoDup : forall left right, NoDup (SjoinFloat.fsjoin_pairs left right).
+Proof. exact SjoinFloatProofs.fsjoin_pairs_NoDup. Qed.
+Print Assumptions C05_float_pairs_NoDup.
+
+(* [FloatExact.FintS f z]: f is finite, its real value is IZR z, and |z| <= 2^25 *)
+Theorem C05_float_intersects_point_exact : forall x y zx zy px py zpx zpy,
+  FloatExact.FintS x zx -> FloatExact.FintS y zy ->
+  FloatExact.FintS px zpx -> FloatExact.FintS py zpy ->
+  SjoinFloat.fintersects (x, y) (SjoinFloat.FPoint px py) = sc_point zx zy zpx zpy.
+Proof. exact SjoinFloatExact.fintersects_point_exact. Qed.
+Print Assumptions C05_float_intersects_point_exact.
+
+Theorem C05_float_intersects_multipoint_exact : forall x y zx zy flat zflat,
+  FloatExact.FintS x zx -> FloatExact.FintS y zy -> Forall2 FloatExact.FintS flat zflat ->
+  SjoinFloat.fintersects (x, y) (SjoinFloat.FMultiPoint flat) = sc_multipoint zx zy zflat.
+Proof. exact SjoinFloatExact.fintersects_multipoint_exact. Qed.
+Print Assumptions C05_float_intersects_multipoint_exact.
+
+(* lines, rings, multilines: the array form of Model/PointShape.v (sub-lines with an even
+   number of values, as every constructor of the library produces) *)
+Theorem C05_float_intersects_lines_exact : forall x y zx zy lines zlines,
+  FloatExact.FintS x zx -> FloatExact.FintS y zy ->
+  Forall2 (Forall2 FloatExact.FintS) lines zlines ->
+  Forall (fun l : list Z => Nat.even (List.length l) = true) zlines ->
+  ar_lines zx zy zlines false = Value (SjoinFloat.fintersects (x, y) (SjoinFloat.FLines lines)).
+Proof. exact SjoinFloatExact.fintersects_lines_exact. Qed.
+Print Assumptions C05_float_intersects_lines_exact.
+
+Theorem C05_float_intersects_polygon_exact : forall x y zx zy vals zvals offs,
+  FloatExact.FintS x zx -> FloatExact.FintS y zy -> Forall2 FloatExact.FintS vals zvals ->
+  SjoinFloat.fintersects (x, y) (SjoinFloat.FPolygon vals offs) =
+  point_intersects_polygon zx zy zvals offs.
+Proof. exact SjoinFloatExact.fintersects_polygon_exact. Qed.
+Print Assumptions C05_float_intersects_polygon_exact.
+
+(* non-vacuity, run by the kernel: with h = 2^-28, the segment (10, 50) - (10+h, 50+h): its
+   midpoint (row 0) and its start (row 4) are on it, (h/4, h/2) and (3h/4, h/2) beyond (10, 50)
+   (rows 1, 3: inside its bounds row, |cross product| = 2^-58) are not; a missing point and a
+   missing shape give nothing; the triangle (10, 50), (10+h, 50), (10, 50+h) holds row 1, not
+   row 3, and - the code's rule on the boundary - the midpoint of its hypotenuse, not its vertex *)
+From Coq Require Import PrimFloat.
+Example ex_float_tiny_segment :
+  SjoinFloat.fsjoin_pairs
+    [Some (0x1.40000001p+3, 0x1.900000004p+5); Some (0x1.400000008p+3, 0x1.900000004p+5); None;
+     Some (0x1.400000018p+3, 0x1.900000004p+5); Some (0x1.4p+3, 0x1.9p+5)]%float
+    [Some (SjoinFloat.FLines [[0x1.4p+3; 0x1.9p+5; 0x1.40000002p+3; 0x1.900000008p+5]]); None;
+     Some (SjoinFloat.FPolygon [0x1.4p+3; 0x1.9p+5; 0x1.40000002p+3; 0x1.9p+5; 0x1.4p+3; 0x1.900000008p+5;
+                                0x1.4p+3; 0x1.9p+5] [0; 8]%nat)]%float
+  = [(0, 0); (4, 0); (0, 2); (1, 2)]%nat.
+Proof. vm_compute. reflexivity. Qed.
